@@ -17,6 +17,11 @@ NPROC = int(os.environ.get("VERIF_JOBS", "16"))
 class Infra(Exception):
     """Infrastructure failure (build, TLC parse error, timeout): exit 2, never a verdict."""
 
+class Crash(Exception):
+    """A harness process was killed by SIGSEGV/SIGBUS/SIGILL/SIGFPE/SIGABRT while driving the library OUTSIDE a guarded call (e.g. while the
+    library built a table, or because an earlier call corrupted memory the harness uses). The harnesses never fault on their own on the
+    unchanged tree, so this is reported as a violation (memory safety), not as an infrastructure failure."""
+
 def seed():
     try:
         return int(os.environ.get("VERIF_SEED", "1"))
@@ -36,6 +41,8 @@ def sh(cmd, timeout=1200, cwd=None, env=None, check=True, capture=True):
                            stderr=subprocess.STDOUT if capture else None, text=True, errors="replace")
     except subprocess.TimeoutExpired as x:
         raise Infra("timeout after %ss: %s" % (timeout, cmd if isinstance(cmd, str) else " ".join(cmd)))
+    if check and (r.returncode in (-11, -7, -4, -8, -6) or (r.returncode == 3 and "harness: unexpected signal" in (r.stdout or ""))):
+        raise Crash("the process driving the library died (exit %d): %s\n%s" % (r.returncode, cmd if isinstance(cmd, str) else " ".join(cmd), (r.stdout or "")[-1500:]))
     if check and r.returncode != 0:
         raise Infra("command failed (%d): %s\n%s" % (r.returncode, cmd if isinstance(cmd, str) else " ".join(cmd), (r.stdout or "")[-4000:]))
     return r
